@@ -39,6 +39,9 @@ func c17Build(base string, levels []int) []string {
 	cur := base
 	for i, cfg := range levels {
 		name := fmt.Sprintf("d%d", i)
+		if i%4 == 2 {
+			name = fmt.Sprintf("..d%d", i) // a name that begins like the parent directory's
+		}
 		if i%2 == 1 {
 			// a name that is also a glob: "d[1]x" must not be taken for its sibling "d1x"
 			name = fmt.Sprintf("d[%d]x", i)
